@@ -4,6 +4,7 @@ CONSTANTS
   Times <- TimesS
   Curves <- CurvesS
   MaxSeg = 5
+  MaxPts = 1
   QTicks = {0, 1, 8, 9, 16, 24, 32, 40, 64, 65, 72, 100, 128, 200, 400}
 INVARIANT FormatWellFormed
 INVARIANT NodesEncoded
